@@ -572,6 +572,14 @@ func (r *Run) RejectedValid(upseid uint64) {
 	}
 }
 
+// TaintRun attributes later discrepancies on objects shared between sessions to
+// a trigger that concerns no live session (e.g. a refused establishment).
+func (r *Run) TaintRun(trigger string) {
+	if r.sharedTaint == "" {
+		r.sharedTaint = trigger
+	}
+}
+
 func (r *Run) Taint(upseid uint64, trigger string) {
 	if r.Taints == nil {
 		r.Taints = map[uint64]string{}
